@@ -230,6 +230,9 @@ def build_harness(tag, sanitize=False, extra_cflags=()):
     return os.path.join(bdir, "kdrv"), ""
 
 
+CANON_ROOT = "/tmp/kvSANDBOX0"   # same length as a real sandbox path
+
+
 def mk_sandbox():
     """Fixed-length sandbox path outside /repo and /verif."""
     return tempfile.mkdtemp(prefix="kv", dir=os.environ.get("KVERIF_TMP", "/tmp"))
@@ -377,7 +380,8 @@ def _run_shard(args):
     if extra.get("sandbox"):
         sb = mk_sandbox()
         a_impl.append(sb)
-        script = script.replace("@ROOT@", hexs(sb))
+        assert len(sb) == len(CANON_ROOT), sb
+        script = script.replace("@ROOT@", hexs(sb)).replace(hexs(CANON_ROOT)[1:], hexs(sb)[1:])
     try:
         rc1, out1, err1 = run_driver(exe_impl, a_impl, script, timeout=extra.get("timeout", 900))
         rc2, out2, err2 = (0, "", "")
@@ -387,9 +391,8 @@ def _run_shard(args):
         if sb:
             shutil.rmtree(sb, ignore_errors=True)
     if sb:
-        canon = "/tmp/kvSANDBOX"
-        out1 = out1.replace(hexs(sb)[1:], hexs(canon)[1:]).replace(sb, canon)
-        out2 = out2.replace(hexs(sb)[1:], hexs(canon)[1:]).replace(sb, canon)
+        out1 = out1.replace(hexs(sb)[1:], hexs(CANON_ROOT)[1:]).replace(sb, CANON_ROOT)
+        out2 = out2.replace(hexs(sb)[1:], hexs(CANON_ROOT)[1:]).replace(sb, CANON_ROOT)
     return rc1, out1, err1[-2000:], rc2, out2, err2[-2000:]
 
 
